@@ -180,6 +180,7 @@ class Machine:
         self.effects = []                # recorded environment effects (C12)
         self.env_model = {}              # environment stubs (C12)
         self.called = set()              # names of repository functions executed (evidence)
+        self.known = {}; self.known_list = None; self.known_str = {}
         self.stats = {'paths': 0, 'queries': 0, 'solver_s': 0.0, 'forks': 0, 'pruned': 0, 'choices': 0}
     # ------------------------------------------------------------------------------------------ loading
     def load_items(self, items, path):
@@ -235,10 +236,26 @@ class Machine:
             if not cond: raise Infeasible()
             return
         self.pc.append(cond)
+    def learn(self, cond, d):
+        """remember facts of the form  const == value  /  boolean const  that the path condition now fixes (used to decide later branches without the solver)"""
+        c = cond
+        if z3.is_not(c): c = c.arg(0); d = not d
+        if z3.is_const(c) and c.decl().kind() == z3.Z3_OP_UNINTERPRETED and z3.is_bool(c):
+            self.known[c.get_id()] = (c, z3.BoolVal(d)); self.known_list = None
+        elif d and z3.is_eq(c):
+            a, b = c.arg(0), c.arg(1)
+            if z3.is_string_value(a) or z3.is_int_value(a): a, b = b, a
+            if z3.is_const(a) and a.decl().kind() == z3.Z3_OP_UNINTERPRETED and (z3.is_string_value(b) or z3.is_int_value(b)):
+                self.known[a.get_id()] = (a, b); self.known_list = None
+                if z3.is_string_value(b): self.known_str[str(a)] = b.as_string()
+    def subst(self, cond):
+        if not self.known: return cond
+        if self.known_list is None: self.known_list = list(self.known.values())
+        return z3.substitute(cond, *self.known_list)
     def branch(self, cond):
         if isinstance(cond, bool): return cond
         if not z3.is_expr(cond): raise Unsupported('branch on %r' % (cond,))
-        cond = z3.simplify(cond)
+        cond = z3.simplify(self.subst(cond))
         if z3.is_true(cond): return True
         if z3.is_false(cond): return False
         i = len(self.trace)
@@ -256,6 +273,7 @@ class Machine:
                 d = True
         self.trace.append(1 if d else 0)
         self.pc.append(cond if d else z3.Not(cond))
+        self.learn(cond, d)
         return d
     def choose(self, n):
         """environment nondeterminism (HashMap iteration order, unstable-sort ties): explore all n alternatives"""
@@ -271,6 +289,7 @@ class Machine:
     def run_path(self, driver, prefix):
         """execute one path; returns (status, value) with status in ok / panic / exit / infeasible / inconclusive"""
         self.prefix = prefix; self.trace = []; self.pc = []; self.effects = []; self.fuel = self.fuel0
+        self.known = {}; self.known_list = None; self.known_str = {}
         try:
             r = driver(self)
             self.stats['paths'] += 1
@@ -308,7 +327,10 @@ class Machine:
     def cs(self, s_):
         """concrete python string for a (possibly symbolic) string: case split over the finite domains of its atoms"""
         v = s_.val if isinstance(s_, (RStr, RBytes)) else s_
-        if isinstance(v, str): return v
+        v = self.resolve(v)
+        if isinstance(v, str):
+            if isinstance(s_, (RStr, RBytes)): s_.val = v
+            return v
         parts = s_parts(v); out = []
         for p in parts:
             if isinstance(p, str): out.append(p); continue
@@ -329,7 +351,18 @@ class Machine:
         # last candidate: the domain constraint is part of the path condition, so it is the only one left
         if self.branch(p == z3.StringVal(dom[-1])): return dom[-1]
         raise Infeasible()
+    def resolve(self, v):
+        """replace atoms whose value the path condition already fixes"""
+        if isinstance(v, str) or not self.known_str: return v
+        ps = s_parts(v); ch = False; out = []
+        for p in ps:
+            if not isinstance(p, str) and z3.is_const(p):
+                k = self.known_str.get(str(p))
+                if k is not None: out.append(k); ch = True; continue
+            out.append(p)
+        return s_norm(out) if ch else v
     def eq_str(self, a, b):
+        a = self.resolve(a); b = self.resolve(b)
         if isinstance(a, str) and isinstance(b, str): return a == b
         if s_same(a, b): return True
         return s_z3(a) == s_z3(b)
@@ -368,6 +401,8 @@ class Machine:
         """Ord::lt on sort keys: strings (byte order = code point order), ints, Option<int>"""
         if isinstance(a, (RStr, RBytes)): a = a.val
         if isinstance(b, (RStr, RBytes)): b = b.val
+        if isinstance(a, (str, Frags)) or isinstance(b, (str, Frags)):
+            a = self.resolve(a); b = self.resolve(b)
         if isinstance(a, str) and isinstance(b, str): return a.encode() < b.encode()
         if isinstance(a, (str, Frags)) or isinstance(b, (str, Frags)): return s_z3(a) < s_z3(b)
         if isinstance(a, REnum) and isinstance(b, REnum) and a.enum == 'Option':
